@@ -1,5 +1,6 @@
 (* C16 - the enlarged pure fragment (Model/C16_Pure2.v): both dialects of the evaluator compute what the second reference
-   evaluator computes - user functions, comprehensions, range, builtins, dicts, string methods.  The simulation is proved
+   evaluator computes - user functions, comprehensions, range, builtins, dicts, string methods, and (third deepening) enumerate /
+   zip / items, % formatting, slices, unpacking assignment, dict |, sorted(reverse=).  The simulation is proved
    for all six mutually recursive components of the evaluator at once, by strong induction on the fuel. *)
 From Coq Require Import Lia Wf_nat.
 From PlzV Require Import Base.Harness Base.StrFacts Gen.AspTables Model.C16_Syntax Model.C16_Ops Model.C16_Prim Model.C16_Eval Model.C16 Model.C16_Pure Model.C16_Sort Model.C16_Pure2.
@@ -435,9 +436,27 @@ Section Sim2.
         | None => if existsb (str_eqb n) builtin_names then qcall_builtin QE f n args ps else Err EType
         end
     | XMeth b m args => do obj <- QV f b ps; qcall_method (fun e => QE f e ps) obj m args
+    | XSlice b lo hi =>
+        do obj <- QV f b ps;
+        do lov <- match lo with None => Ok None | Some e => do v <- QE f e ps; Ok (Some v) end;
+        do hiv <- match hi with None => Ok None | Some e => do v <- QE f e ps; Ok (Some v) end;
+        qslice obj lov hiv
     | _ => Err EUnsupported
     end.
   Proof. intros f x ps. destruct x; reflexivity. Qed.
+
+  Lemma opt_sim : forall f, Esim f -> forall o st ps po, srel d st ps ->
+    match o with None => Ok None | Some e => do v <- QE f e ps; Ok (Some v) end = Ok po ->
+    exists ov st1, opt_eval d [] f o st = Ok (ov, st1) /\ xle st st1 /\ ovrel d (hp st1) po ov.
+  Proof.
+    intros f HE o st ps po Hs H. destruct o as [e|]; cbn [opt_eval].
+    - destruct (QE f e ps) as [p| |] eqn:Ee; try discriminate. cbn [rbind] in H. injection H as <-.
+      destruct (HE e st ps p Hs Ee) as (v & st1 & Ev & Hx & Hv). rewrite Ev. cbn [rbind]. exists (Some v), st1. now split.
+    - injection H as <-. exists None, st. split; [reflexivity|]. split; [apply xle_refl|exact I].
+  Qed.
+
+  Lemma ovrel_xle : forall st st' po o, xle st st' -> ovrel d (hp st) po o -> ovrel d (hp st') po o.
+  Proof. intros st st' [p|] [v|] Hx H; cbn [ovrel] in *; try assumption. now apply (vr_xle d st st'). Qed.
 
   Lemma dict_pairs_sim : forall f, Esim f -> forall kvs st ps ppairs, srel d st ps ->
     qmapR (fun kv => do k <- QE f (fst kv) ps; do v <- QE f (snd kv) ps;
@@ -543,6 +562,18 @@ Section Sim2.
       destruct (HE i st1 ps pidx (srel_xle d st st1 ps Hs Hx1) Eidx) as (idx & st2 & E2 & Hx2 & Hidx). rewrite E2. cbn [rbind].
       destruct (vindex_sim d st2 pobj pidx obj idx p (vr_xle d st1 st2 _ _ Hx2 Hobj) Hidx H) as (v & Evi & Hv). rewrite Evi. cbn [rbind].
       exists v, st2. split; [reflexivity|]. split; [now apply (xle_trans st st1)|exact Hv].
+    - (* slice *)
+      destruct (QV f x ps) as [pobj| |] eqn:Eo; try discriminate. cbn [rbind] in H.
+      destruct (match lo with None => Ok None | Some e => do v <- QE f e ps; Ok (Some v) end) as [plo| |] eqn:Elo; try discriminate. cbn [rbind] in H.
+      destruct (match hi with None => Ok None | Some e => do v <- QE f e ps; Ok (Some v) end) as [phi| |] eqn:Ehi; try discriminate. cbn [rbind] in H.
+      destruct (HV x st ps pobj Hs Eo) as (obj & st1 & E1 & Hx1 & Hobj). rewrite eval_vexpr_S_slice, E1. cbn [rbind].
+      assert (Hs1 : srel d st1 ps) by now apply (srel_xle d st).
+      destruct (opt_sim f HE lo st1 ps plo Hs1 Elo) as (lov & st2 & E2 & Hx2 & Hlo). rewrite E2. cbn [rbind].
+      assert (Hs2 : srel d st2 ps) by now apply (srel_xle d st1).
+      destruct (opt_sim f HE hi st2 ps phi Hs2 Ehi) as (hiv & st3 & E3 & Hx3 & Hhi). rewrite E3. cbn [rbind].
+      apply (sim_xle d st st3); [apply (xle_trans st st1); [exact Hx1|now apply (xle_trans st1 st2)]|].
+      apply (vslice_sim d chk cneg chk_ok cneg_ok st3 pobj obj plo lov phi hiv p); [|now apply (ovrel_xle st2 st3)|exact Hhi|exact H].
+      apply (vr_xle d st2 st3); [exact Hx3|]. now apply (vr_xle d st1 st2).
   Qed.
 
   (* ================================================================ statements *)
@@ -582,6 +613,12 @@ Section Sim2.
             | QList _ => Err EUnsupported
             | _ => do r <- qapply_bin chk f Add old v; Ok (QRNone, qset_var n r ps)
             end
+        end
+    | SUnpack names e =>
+        do v <- QE f e ps;
+        match names with
+        | [] | [_] => Err EUnsupported
+        | _ => do ps1 <- qunpack names v ps; Ok (QRNone, ps1)
         end
     | SAssert e => do v <- QE f e ps; if qtruthy v then Ok (QRNone, ps) else Err EType
     | SReturn None => Ok (QRRet QNone, ps)
@@ -722,6 +759,14 @@ Section Sim2.
       destruct pold; cbn [vrel] in Hl2; try (subst old; destruct d; exact Hstep).
       + discriminate H.
       + apply vrel_dict in Hl2. destruct Hl2 as (i & es & -> & _). destruct d; exact Hstep.
+    - (* SUnpack *)
+      destruct (QE f e ps) as [p| |] eqn:Ee; try discriminate. cbn [rbind] in H.
+      destruct (expr_in_stmt f HE e st ps p Hs Ee) as (v & st1 & Hev & Hv & Hs1 & Hg1).
+      rewrite exec_stmt_S_unpack, Hev. cbn [rbind].
+      destruct names as [|n1 [|n2 names]]; try discriminate.
+      destruct (qunpack (n1 :: n2 :: names) p ps) as [ps1| |] eqn:Eu; try discriminate. cbn [rbind] in H. injection H as <- <-.
+      destruct (unpack_sim (n1 :: n2 :: names) p v st1 ps ps1 Hs1 Hv Eu) as (st2 & E2 & Hs2 & Hg2 & _). rewrite E2. cbn [rbind].
+      exists RNone, st2. four; [reflexivity|exact I|exact Hs2|now apply (grows_trans st st1)].
     - (* SIf *)
       destruct (QE f c ps) as [pc| |] eqn:Ec; try discriminate. cbn [rbind] in H.
       destruct (expr_in_stmt f HE c st ps pc Hs Ec) as (vc & st1 & Hev & Hv & Hs1 & Hg1).
